@@ -31,6 +31,8 @@ CONSTANTS Tmpl,        \* template identities
           Lag,         \* TRUE: the manager cache shows a created ObjectSet late
           WithPk,      \* TRUE: templates are written by the package deployer, with ObjectSlices and slice GC
           AtomicOd,    \* TRUE: no other actor moves between an od pass's read of the deployment and its end
+          MaxPkFail,   \* how often the deployer's update of the ObjectDeployment is answered with a server error
+          GCAfterFailedUpdate,  \* FALSE = the code: a failed update ends the deployer's pass; TRUE (seeded change C14 round 5): slice GC runs anyway
           MaxEdit, MaxPause, MaxWork, MaxCrash, MaxLagEdit   \* budgets
 
 Names == Tmpl \X (0..MaxColl)              \* ObjectSet name = <deployment>-hash(template, collisionCount)
@@ -55,7 +57,7 @@ vars == <<dep, sets, slices, want, od, pk, bud, incc, stale, lastw>>
 
 IdleOd == [ pc |-> "idle", snap |-> [tmpl |-> "-", coll |-> 0, paused |-> FALSE, strev |-> 0, epoch |-> 0],
             L |-> [n \in Names |-> NoSet], plan |-> <<>>, coll |-> 0, cur |-> {} ]
-IdlePk == [ pc |-> "idle", want |-> "-", refs |-> {}, seen |-> {}, sl |-> {} ]
+IdlePk == [ pc |-> "idle", want |-> "-", refs |-> {}, seen |-> {}, sl |-> {}, fails |-> 0 ]
 NoStale == [ od |-> {}, odDep |-> FALSE, pkDep |-> FALSE ]
 NoWrite == [ actor |-> "-", op |-> "-", n |-> NoName, s |-> "-" ]
 
@@ -251,7 +253,7 @@ UserPause ==
 \* list ObjectSets, list slices, delete the unreferenced ones
 PK_Get ==
     /\ Free /\ WithPk /\ pk.pc = "idle" /\ (want # dep.tmpl \/ \E s \in slices : s # dep.tmpl)
-    /\ pk' = [ IdlePk EXCEPT !.pc = "slice", !.want = want ]
+    /\ pk' = [ IdlePk EXCEPT !.pc = "slice", !.want = want, !.fails = pk.fails ]
     /\ stale' = [ stale EXCEPT !.pkDep = FALSE ]
     /\ lastw' = NoWrite
     /\ UNCHANGED <<dep, sets, slices, want, od, bud, incc>>
@@ -270,6 +272,13 @@ PK_Update ==
        ELSE /\ UNCHANGED <<dep, pk>> /\ stale' = [ stale EXCEPT !.pkDep = FALSE ]      \* Conflict: Get again, retry
     /\ lastw' = [ actor |-> "pk", op |-> "template", n |-> NoName, s |-> pk.want ]
     /\ UNCHANGED <<sets, slices, want, od, bud, incc>>
+\* the Update is answered with a server error: nothing is written. The pass ends - or (variant) goes on to the slice
+\* GC, which computes the referenced slices from the IN-MEMORY template (the wanted one), not from what is stored
+PK_UpdateFails ==
+    /\ Free /\ pk.pc = "update" /\ ~stale.pkDep /\ dep.tmpl # pk.want /\ pk.fails < MaxPkFail
+    /\ pk' = IF GCAfterFailedUpdate THEN [ pk EXCEPT !.pc = "listsets", !.fails = @ + 1 ] ELSE [ IdlePk EXCEPT !.fails = pk.fails + 1 ]
+    /\ lastw' = NoWrite
+    /\ UNCHANGED <<dep, sets, slices, want, od, bud, incc, stale>>
 PK_ListSets ==
     /\ Free /\ pk.pc = "listsets"
     /\ pk' = [ pk EXCEPT !.pc = "listslices", !.refs = { sets[n].tmpl : n \in { m \in Names : sets[m].ex /\ sets[m].vis } },
@@ -283,7 +292,7 @@ PK_ListSlices ==
     /\ UNCHANGED <<dep, sets, slices, want, od, bud, incc, stale>>
 PK_Delete ==
     /\ Free /\ pk.pc = "gc"
-    /\ IF pk.sl = {} THEN /\ pk' = IdlePk /\ UNCHANGED slices /\ lastw' = NoWrite
+    /\ IF pk.sl = {} THEN /\ pk' = [ IdlePk EXCEPT !.fails = pk.fails ] /\ UNCHANGED slices /\ lastw' = NoWrite
        ELSE LET s == CHOOSE x \in pk.sl : TRUE IN
             /\ slices' = slices \ {s}
             /\ pk' = [ pk EXCEPT !.sl = @ \ {s} ]
@@ -296,7 +305,7 @@ Next ==
     \/ \E n \in Names, a \in BOOLEAN : OS_Reconcile(n, a)
     \/ \E t \in Tmpl : UserEdit(t) \/ UserWant(t)
     \/ UserPause
-    \/ PK_Get \/ PK_CreateSlice \/ PK_Update \/ PK_ListSets \/ PK_ListSlices \/ PK_Delete
+    \/ PK_Get \/ PK_CreateSlice \/ PK_Update \/ PK_UpdateFails \/ PK_ListSets \/ PK_ListSlices \/ PK_Delete
 
 Spec == Init /\ [][Next]_vars
 
